@@ -119,12 +119,31 @@ namespace detail
 		}
 	};
 
+	template<typename T, bool isSigned = std::numeric_limits<T>::is_signed>
+	struct compute_findMSB_magnitude
+	{
+		GLM_FUNC_QUALIFIER static T call(T v)
+		{
+			return v;
+		}
+	};
+
+	// GLSL: for negative integers, findMSB returns the bit number of the most significant bit set to 0
+	template<typename T>
+	struct compute_findMSB_magnitude<T, true>
+	{
+		GLM_FUNC_QUALIFIER static T call(T v)
+		{
+			return v < static_cast<T>(0) ? static_cast<T>(~v) : v;
+		}
+	};
+
 	template<length_t L, typename T, qualifier Q, int>
 	struct compute_findMSB_vec
 	{
 		GLM_FUNC_QUALIFIER static vec<L, int, Q> call(vec<L, T, Q> const& v)
 		{
-			vec<L, T, Q> x(v);
+			vec<L, T, Q> x(detail::functor1<vec, L, T, T, Q>::call(compute_findMSB_magnitude<T>::call, v));
 			x = compute_findMSB_step_vec<L, T, Q, sizeof(T) * 8 >=  8>::call(x, static_cast<T>( 1));
 			x = compute_findMSB_step_vec<L, T, Q, sizeof(T) * 8 >=  8>::call(x, static_cast<T>( 2));
 			x = compute_findMSB_step_vec<L, T, Q, sizeof(T) * 8 >=  8>::call(x, static_cast<T>( 4));
